@@ -39,6 +39,7 @@ type Engine struct {
 	macroSpecs    bool
 	fieldIDs      map[string]int
 	impureBusy    map[*ssa.Function]bool
+	bodyFiles     map[string]bool // repo-relative files holding a function body this run executed, inlined or analysed for its write set
 }
 
 type WriteSet struct {
@@ -305,10 +306,29 @@ func (e *Engine) inlinable(fn *ssa.Function) bool {
 
 // ---------- static write sets ----------
 
+// touchBody records that the body of fn was read by this run (symbolically executed, inlined, or analysed for its
+// write set): a change to that body can change a verdict; a change to any other body cannot.
+func (e *Engine) touchBody(fn *ssa.Function) {
+	if fn == nil || e.prog == nil {
+		return
+	}
+	if e.bodyFiles == nil {
+		e.bodyFiles = map[string]bool{}
+	}
+	f := e.prog.Fset.Position(fn.Pos()).Filename
+	if f == "" {
+		return
+	}
+	if rel, err := filepath.Rel(e.repo, f); err == nil && !strings.HasPrefix(rel, "..") {
+		e.bodyFiles[rel] = true
+	}
+}
+
 func (e *Engine) writeSet(fn *ssa.Function) *WriteSet {
 	if ws, ok := e.wsMemo[fn]; ok {
 		return ws
 	}
+	e.touchBody(fn)
 	if e.wsBusy[fn] {
 		return &WriteSet{Keys: map[string]bool{}, Sorts: map[string]string{}, Ghosts: map[string]bool{}}
 	}
@@ -822,6 +842,7 @@ func (e *Engine) VerifyFunction(fc *FuncContract) *FuncResult {
 	st := &State{cells: map[*Cell]*Value{}, promo: map[*Cell]string{}, heap: map[string]string{}, ghost: map[string]*Value{},
 		cut: map[*ssa.BasicBlock]bool{}, written: map[string]bool{}, wcells: map[*Cell]bool{}, boxes: map[string]*Value{}, iters: map[string]*mapIter{},
 		allocT: "alloc0", locks: "locks0"}
+	e.touchBody(fn)
 	fr := &Frame{fn: fn, regs: map[ssa.Value]*Value{}}
 	st.frames = []*Frame{fr}
 	x.params = map[string]*Value{}
